@@ -122,3 +122,14 @@ PROPS["C09"] = dict(
                  "a cancel-matching result that loses the hand-off to the final result of the last attempt is accepted when all attempts have finished (DESIGN.md L8)",
                  "timing assertions are lower bounds only; 'does not return' is observed for 0.3 ms, 'returns' is awaited for 30 s"],
 )
+
+PROPS["C08"] = dict(
+    pkg="./props/c08_cancel",
+    tests=[REGRESS(), T("TestCancelScenarios", (6, 400), (8, 6000)), T("TestCancelRaceSpin", (8, 40), (8, 800))],
+    replay_reps=20,
+    rule="rapid-generated cancellation scenarios run in concurrent batches: 12 composition shapes around a retry or hedge policy (with fallback outside/inside, breaker, a full bulkhead and a rate limiter with 1 h waits, enclosing Timeout), retry delay 0 or 1 h, one cancellation source (context cancel, context deadline, enclosing Timeout, ExecutionResult.Cancel) fired at a generated point (before submission, inside attempt k, inside OnRetryScheduled of retry k, from another goroutine after a generated spin of 0..100 us, after completion), sync and async; plus spin-race batches of 2000 cheap trials aimed at the windows between the steps of a retry iteration; non-trivial = the cancellation took effect strictly between the first function entry and the call's return; distinct = hash of the scenario parameters and the outcome class",
+    assumptions=["exactly one cancellation source per execution, as the property's quantifier says",
+                 "the marker 'cancellation in effect' is logged after the cancelling call returned (or later), so 'at most one attempt afterwards' is a sound bound",
+                 "promptness is asserted only against 1 h waits, with a 30 s bound",
+                 "windows narrower than ~100 ns are hit only with the probability the trial counts give (evidence reports them)"],
+)
